@@ -161,27 +161,74 @@ class Gen:
     self.classes.append((name, nargs))
     return "".join(lines)
 
+  TV_POOL = ["T", "S", "R", "K", "V", "U", "W", "Q", "A1", "Z"]
+  DISTINCT = [("1", "int"), ("'s'", "str"), ("1.5", "float"), ("b''", "bytes"), ("None", "None"), ("[1]", "list[int]"),
+              ("(1, 's')", "tuple[int, str]"), ("{'k': 1.5}", "dict[str, float]")]
+
+  def generic_block(self):
+    """a generic class with 1-3 type parameters whose TypeVar names are drawn in random (often non-alphabetical)
+    order, one attribute and accessor methods per parameter, a subclass fixing the first parameter, generic
+    functions returning instances, and module-level instances with pairwise different argument types."""
+    r = self.r
+    n = r.choice([1, 2, 2, 2, 3, 3])
+    tvs = r.sample(self.TV_POOL, n)
+    out = []
+    kinds = {}
+    for t in tvs:
+      k = r.random()
+      if k < 0.12:
+        out.append("%s = TypeVar('%s', bound=object)\n" % (t, t)); kinds[t] = "bound"
+      elif k < 0.2 and n <= 2:
+        out.append("%s = TypeVar('%s', int, str, float, bytes, None, list, tuple, dict)\n" % (t, t)); kinds[t] = "constr"
+      else:
+        out.append("%s = TypeVar('%s')\n" % (t, t)); kinds[t] = "plain"
+    f = ["f%d" % i for i in range(n)]
+    cls = ["class P0(Generic[%s]):\n" % ", ".join(tvs),
+           "  def __init__(self, %s) -> None:\n" % ", ".join("%s: %s" % (f[i], tvs[i]) for i in range(n))]
+    for i in range(n):
+      cls.append("    self.%s = %s\n" % (f[i], f[i]))
+    for i in range(n):
+      cls.append("  def get%d(self) -> %s:\n    return self.%s\n" % (i, tvs[i], f[i]))
+    i = r.randrange(n)
+    cls.append("  def lst(self) -> list[%s]:\n    return [self.%s]\n" % (tvs[i], f[i]))
+    if n >= 2:
+      cls.append("  def rev(self):\n    return (%s)\n" % ", ".join("self.%s" % x for x in reversed(f)))
+      cls.append("  def opt(self, flag: bool) -> Optional[%s]:\n    return self.%s if flag else None\n" % (tvs[-1], f[-1]))
+      cls.append("  def same(self, o: %s) -> dict[str, %s]:\n    return {'k': o}\n" % (tvs[0], tvs[0]))
+    out.extend(cls)
+    args = r.sample(self.DISTINCT, 3)
+    def mk(c, k, shift=0):
+      return "%s(%s)" % (c, ", ".join(args[(j + shift) % 3][0] for j in range(k)))
+    out.append("pv0 = %s\n" % mk("P0", n))
+    out.append("pv1 = (%s if _cond() else %s)\n" % (mk("P0", n, 1), mk("P0", n, 2)))
+    if n >= 2:
+      # a subclass that fixes the first parameter and stays generic in the others
+      fixed = args[0]
+      rest = tvs[1:]
+      out.append("class P1(P0[%s, %s]):\n  def extra(self) -> %s:\n    return self.%s\n" %
+                 (fixed[1], ", ".join(rest), rest[-1], f[-1]))
+      out.append("pv2 = P1(%s)\n" % ", ".join(args[j % 3][0] for j in range(n)))
+      # generic functions returning instances with the parameters permuted
+      perm = list(range(n)); r.shuffle(perm)
+      out.append("def flip(p: P0[%s]) -> P0[%s]:\n  return P0(%s)\n" %
+                 (", ".join(tvs), ", ".join(tvs[j] for j in perm), ", ".join("p.%s" % f[j] for j in perm)))
+      out.append("def mkp(%s) -> P0[%s]:\n  return P0(%s)\n" %
+                 (", ".join("a%d: %s" % (j, tvs[j]) for j in range(n)), ", ".join(tvs),
+                  ", ".join("a%d" % j for j in range(n))))
+    else:
+      out.append("def mkp(a0: int) -> P0[%s]:\n  return P0(%s)\n" %
+                 r.choice([("int", "a0"), ("list[int]", "[a0]"), ("Optional[str]", "None")]))
+    out.append("pl = [pv0]\n")
+    return "".join(out)
+
   def program(self):
     r = self.r
     out = ["from typing import Any, Callable, Generic, NamedTuple, Optional, TypeVar, Union\n",
            "def _cond(): return bool(_cond)\n"]
     for i in range(self.n_classes):
       out.append(self.klass(i))
-    if r.random() < 0.4:
-      out.append("T = TypeVar('T')\n"
-                 "class G0(Generic[T]):\n"
-                 "  def __init__(self, x: T) -> None:\n"
-                 "    self.x = x\n"
-                 "  def get(self) -> T:\n"
-                 "    return self.x\n"
-                 "  def wrap(self):\n"
-                 "    return %s\n" % r.choice(["[self.x]", "(self.x, 0)", "{'k': self.x}", "(self.x if _cond() else None)"]))
-      for i in range(r.choice([1, 2])):
-        e1, e2 = self.expr(1), self.expr(1)
-        out.append("g%d = %s\n" % (i, r.choice(["G0(%s)" % e1, "(G0(%s) if _cond() else G0(%s))" % (e1, e2),
-                                                  "[G0(%s)]" % e1])))
-      out.append("def mk0(a: int) -> G0[%s]:\n  return G0(%s)\n" %
-                 r.choice([("int", "a"), ("list[int]", "[a]"), ("Optional[str]", "None")]))
+    if r.random() < 0.55:
+      out.append(self.generic_block())
     if r.random() < 0.2:
       out.append("class NT(NamedTuple):\n  a: int\n  b: %s\n" % self.annot(allow_cls=False))
       self.classes.append(("NT", 2))
@@ -359,6 +406,9 @@ def parse_stub(text, name):
                              options=parser.PyiOptions(python_version=(3, 12)))
 
 
+CONSTS = "\0consts"     # key of `classes` holding {class name: "A.<constant of that class>"}
+
+
 def mk_expr(t, classes, depth=3):
   """source text of an expression whose type is the stub type t, or None."""
   from pytype.pytd import pytd
@@ -399,6 +449,8 @@ def mk_expr(t, classes, depth=3):
   if isinstance(t, pytd.GenericType):
     b = t.base_type.name.split(".")[-1]
     ps = t.parameters
+    if b in classes:
+      return classes.get(CONSTS, {}).get(b)          # e.g. A.pv0 for a parameter of type P0[T, S]
     if b == "Callable":
       e = mk_expr(ps[-1], classes, depth - 1)
       return None if e is None else "(lambda *q: %s)" % e
@@ -471,6 +523,85 @@ def class_tparams(cls):
   return out
 
 
+def mro_subst(cls, classes, sub):
+  """[(class, {~typevar: canonical type})]: the class and its bases (defined in the stub), each with the binding of
+  its own type parameters implied by `sub` (the binding of cls's own parameters); None when unknown."""
+  from pytype.pytd import pytd
+  out = [(cls, sub)]
+  seen = {cls.name}
+  todo = [(b, sub) for b in cls.bases]
+  while todo:
+    b, sb = todo.pop(0)
+    bn = (b.base_type.name if isinstance(b, pytd.GenericType) else getattr(b, "name", "")).split(".")[-1]
+    if bn not in classes or classes[bn].name in seen:
+      continue
+    bc = classes[bn]
+    seen.add(bc.name)
+    own = ["~" + t for t in class_tparams(bc)]
+    if isinstance(b, pytd.GenericType) and sb is not None and len(own) == len(b.parameters):
+      bsub = dict(zip(own, (subst_tv(canon(p), sb) for p in b.parameters)))
+    elif not own:
+      bsub = {}
+    else:
+      bsub = None
+    out.append((bc, bsub))
+    todo.extend((x, bsub) for x in bc.bases)
+  return out
+
+
+def unify(decl, actual, out):
+  """binds the ~typevars of the canonical type `decl` by matching it against `actual`; False on a clash."""
+  if isinstance(decl, str):
+    if decl.startswith("~"):
+      if decl in out and out[decl] != actual:
+        return False
+      out[decl] = actual
+    return True
+  if not isinstance(actual, tuple) or actual[0] != decl[0]:
+    return not has_typevar(decl)
+  if decl[0] == "U":
+    return not has_typevar(decl)
+  if decl[0] == "F":
+    if len(decl[1]) != len(actual[1]):
+      return not has_typevar(decl)
+    return all(unify(d, a, out) for d, a in zip(decl[1], actual[1])) and unify(decl[2], actual[2], out)
+  if len(decl) != len(actual) or (decl[0] == "G" and decl[1] != actual[1]):
+    return not has_typevar(decl)
+  return all(unify(d, a, out) for d, a in zip(decl[1:], actual[1:]) if isinstance(d, (str, tuple)))
+
+
+def call_expectation(sig, skip_self, classes, const_types, sub0=None):
+  """the declared result type of the call the oracle builds for `sig` (see sig_args): every required parameter gets
+  mk_expr's argument, whose type is the declared type with type variables read as int, or the type of the
+  module constant used for a parameter that is an instance of one of A's generic classes.  None if unknown."""
+  from pytype.pytd import pytd
+  binds = dict(sub0 or {})
+  ps = list(sig.params)[1:] if skip_self else list(sig.params)
+  for p in ps:
+    if p.optional:
+      continue
+    d = subst_tv(canon(p.type), sub0 or {})
+    if isinstance(p.type, pytd.GenericType) and p.type.base_type.name.split(".")[-1] in const_types:
+      actual = const_types[p.type.base_type.name.split(".")[-1]]
+    else:
+      actual = all_tv_to(d, "int")
+    if not unify(d, actual, binds):
+      return None
+  ret = subst_tv(subst_tv(canon(sig.return_type), sub0 or {}), binds)
+  return None if has_typevar(ret) else ret
+
+
+def all_tv_to(c, t):
+  if isinstance(c, str):
+    return t if c.startswith("~") else c
+  if c[0] == "U":
+    return mk_union({all_tv_to(x, t) for x in c[1]})
+  if c[0] == "F":
+    return ("F", tuple(all_tv_to(x, t) for x in c[1]), all_tv_to(c[2], t))
+  return (c[0],) + tuple(all_tv_to(x, t) if isinstance(x, (str, tuple)) and i >= (1 if c[0] == "G" else 0) else x
+                         for i, x in enumerate(c[1:]))
+
+
 def mro_of(cls, classes):
   """the class followed by its (single-inheritance chain of) bases defined in the same stub."""
   out = [cls]
@@ -486,113 +617,197 @@ def mro_of(cls, classes):
   return out
 
 
+MAX_PROBES = 90
+
+
 def derive_downstream(stub_text):
-  """Returns (source of B, expectations) where expectations maps a name of B to
-  ("type", canonical type) | ("callable", params, ret)."""
+  """Derives the downstream module from A's stub.
+
+  Returns (source of B, exp, meta): exp maps a name of B to the expectation read off the stub
+  ("type"|"alias", canonical type, where) | ("function", sigs, where); meta maps every name of B to
+  {"expr": source text, "parent": name it was read from or None, "what": ..., flags used to classify findings}.
+  B re-exports every public name, calls every function, and probes INSIDE every value whose type is a class of A
+  (generic or not): each attribute (inherited ones included) is read, each property is read, each method taking
+  at most one constructible argument is called."""
   from pytype.pytd import pytd
   ast = parse_stub(stub_text, "A")
   classes = {c.name.split(".")[-1]: c for c in ast.classes}
+  consts = {}
+  const_types = {}
+  for c in ast.constants:
+    ct = canon(c.type)
+    if isinstance(ct, tuple) and ct[0] == "G" and ct[1] in classes and not c.name.split(".")[-1].startswith("_"):
+      if ct[1] not in consts:
+        consts[ct[1]] = "A." + c.name.split(".")[-1]
+        const_types[ct[1]] = ct
+  classes_env = dict(classes)
+  classes_env[CONSTS] = consts
   lines = ["import A\n"]
   exp = {}
+  meta = {}
   def public(n):
     return not n.startswith("_")
-  def generic_probes(prefix, expr, ct, where):
-    """ct = canonical type of `expr`; if it is an instance of a generic class of A, read its attributes and call its
-    parameterless methods, expecting the declared type with the class's type parameters substituted."""
-    if not (isinstance(ct, tuple) and ct[0] == "G" and ct[1] in classes and class_tparams(classes[ct[1]])):
+  def add(name, expr, parent, what, **flags):
+    if len(meta) >= MAX_PROBES and parent is not None:
+      return False
+    lines.append("%s = %s\n" % (name, expr))
+    meta[name] = dict(expr=expr, parent=parent, what=what, **flags)
+    return True
+  def omitted_tv_default(sig):
+    return any(p.optional and has_typevar(canon(p.type)) for p in sig.params)
+  def class_of(ct):
+    if isinstance(ct, str) and ct in classes:
+      return ct, ()
+    if isinstance(ct, tuple) and ct[0] == "G" and ct[1] in classes:
+      return ct[1], ct[2:]
+    return None, ()
+  def value_probes(prefix, expr, ct, where, parent):
+    """probes inside a value of canonical stub type ct."""
+    cn, params = class_of(ct)
+    if cn is None:
       return
-    cls = classes[ct[1]]
-    names = ["~" + t for t in class_tparams(cls)]
-    if len(names) != len(ct) - 2:
-      return
-    sub = dict(zip(names, ct[2:]))
-    for a in cls.constants:
-      if public(a.name):
-        nm = "%s_%s" % (prefix, a.name)
-        lines.append("%s = %s.%s\n" % (nm, expr, a.name))
-        e = subst_tv(canon(a.type), sub)
-        if not has_typevar(e):
-          exp[nm] = ("type", e, "%s.%s" % (where, a.name))
-    for m in cls.methods:
-      if public(m.name) and len(m.signatures) == 1 and m.kind == pytd.MethodKind.METHOD and \
-         len(m.signatures[0].params) == 1 and not m.signatures[0].starargs and not m.signatures[0].starstarargs:
-        nm = "%s_%s" % (prefix, m.name)
-        lines.append("%s = %s.%s()\n" % (nm, expr, m.name))
-        e = subst_tv(canon(m.signatures[0].return_type), sub)
-        if not has_typevar(e):
-          exp[nm] = ("type", e, "%s.%s()" % (where, m.name))
+    cls = classes[cn]
+    own = ["~" + t for t in class_tparams(cls)]
+    sub = dict(zip(own, params)) if len(own) == len(params) else None
+    seen = {}
+    for k, ksub in mro_subst(cls, classes, sub):
+      kn = k.name.split(".")[-1]
+      def declared(t):
+        e = subst_tv(canon(t), ksub) if ksub is not None else canon(t)
+        if isinstance(e, tuple) and e[:2] == ("G", "Final") and len(e) == 3:
+          e = e[2]            # Final is a qualifier of the declaration, not part of the type of the value read
+        return None if has_typevar(e) else e
+      for a in k.constants:
+        an = a.name
+        if not public(an):
+          continue
+        if an in seen:
+          meta[seen[an]]["owners"].append((kn, declared(a.type)))
+          continue
+        nm = "%s_%s" % (prefix, an)
+        if not add(nm, "%s.%s" % (expr, an), parent, "%s.%s" % (where, an), kind="attr", cls=cn, member=an,
+                   declared=canon(a.type), owners=[(kn, declared(a.type))]):
+          return
+        seen[an] = nm
+        if declared(a.type) is not None:
+          exp[nm] = ("type", declared(a.type), "%s.%s" % (where, an))
+      for m in k.methods:
+        mn = m.name
+        if not public(mn) or mn in seen or len(m.signatures) != 1:
+          continue
+        sig = m.signatures[0]
+        nm = "%s_%s" % (prefix, mn)
+        if m.kind == pytd.MethodKind.PROPERTY:
+          if not add(nm, "%s.%s" % (expr, mn), parent, "%s.%s" % (where, mn), kind="attr", cls=cn, member=mn,
+                     declared=canon(sig.return_type), owners=[(kn, declared(sig.return_type))]):
+            return
+          seen[mn] = nm
+          if declared(sig.return_type) is not None:
+            exp[nm] = ("type", declared(sig.return_type), "%s.%s" % (where, mn))
+          continue
+        skip_first = m.kind != pytd.MethodKind.STATICMETHOD
+        n_extra = len([p for p in sig.params[(1 if skip_first else 0):] if not p.optional])
+        if n_extra > 1:
+          continue
+        margs = sig_args(sig, classes_env, 2, skip_first)
+        if margs is None:
+          continue
+        recv = expr if m.kind == pytd.MethodKind.METHOD else "A.%s" % cn
+        if not add(nm, "%s.%s(%s)" % (recv, mn, ", ".join(margs)), parent, "%s.%s(...)" % (where, mn), kind="call",
+                   cls=cn, member=mn, omitted_tv_default=omitted_tv_default(sig)):
+          return
+        seen[mn] = nm
+        e = call_expectation(sig, skip_first, classes, const_types, ksub) if ksub is not None else None
+        if e is not None:
+          exp[nm] = ("type", e, "%s.%s(...)" % (where, mn))
   for c in ast.constants:
     n = c.name.split(".")[-1]
     if public(n):
-      lines.append("v_%s = A.%s\n" % (n, n))
+      add("v_" + n, "A." + n, None, "A." + n, kind="var")
       exp["v_" + n] = ("type", canon(c.type), "A." + n)
-      generic_probes("q_" + n, "A." + n, canon(c.type), "A." + n)
   for a in ast.aliases:
     n = a.name.split(".")[-1]
     if not public(n) or isinstance(a.type, pytd.Module):
       continue
-    if isinstance(a.type, (pytd.Function, pytd.Constant)) or n in ("Any", "Callable", "Optional", "Union", "Generic", "NamedTuple", "TypeVar"):
+    if isinstance(a.type, (pytd.Function, pytd.Constant)) or \
+       n in ("Any", "Callable", "Optional", "Union", "Generic", "NamedTuple", "TypeVar", "Final"):
       continue
-    lines.append("v_%s = A.%s\n" % (n, n))
+    add("v_" + n, "A." + n, None, "A." + n, kind="var")
     if isinstance(a.type, pytd.Type):
       exp["v_" + n] = ("alias", canon(a.type), "A." + n)
+  results = []
   for f in ast.functions:
     n = f.name.split(".")[-1]
     if not public(n):
       continue
-    lines.append("g_%s = A.%s\n" % (n, n))
-    exp["g_" + n] = ("function", [sig_canon(s, False) for s in f.signatures], "A." + n)
+    add("g_" + n, "A." + n, None, "A." + n, kind="ref")
+    exp["g_" + n] = ("function", [sig_canon(s_, False) for s_ in f.signatures], "A." + n)
     if len(f.signatures) == 1:
-      args = sig_args(f.signatures[0], classes, 2, False)
-      ret = canon(f.signatures[0].return_type)
+      sig = f.signatures[0]
+      args = sig_args(sig, classes_env, 2, False)
+      ret = canon(sig.return_type)
       if args is not None:
-        lines.append("r_%s = A.%s(%s)\n" % (n, n, ", ".join(args)))
-        if not has_typevar(ret):
-          exp["r_" + n] = ("type", ret, "A.%s(...)" % n)
-          generic_probes("q_r_" + n, "r_" + n, ret, "A.%s(...)" % n)
+        add("r_" + n, "A.%s(%s)" % (n, ", ".join(args)), None, "A.%s(...)" % n, kind="call", member=n,
+            omitted_tv_default=omitted_tv_default(sig))
+        e = call_expectation(sig, False, classes, const_types)
+        if e is not None:
+          exp["r_" + n] = ("type", e, "A.%s(...)" % n)
+        results.append(("q_r_" + n, "r_" + n, e if e is not None else ret, "A.%s(...)" % n, "r_" + n))
   for cn, c in classes.items():
     if not public(cn):
       continue
-    lines.append("k_%s = A.%s\n" % (cn, cn))
+    add("k_" + cn, "A." + cn, None, "A." + cn, kind="ref")
     exp["k_" + cn] = ("type", ("G", "type", cn), "A." + cn)
-    args = ctor_args(c, classes, 2)
+    args = ctor_args(c, classes_env, 2)
     if args is None:
       continue
-    lines.append("i_%s = A.%s(%s)\n" % (cn, cn, ", ".join(args)))
+    add("i_" + cn, "A.%s(%s)" % (cn, ", ".join(args)), None, "A.%s(...)" % cn, kind="call", member=cn)
     if class_tparams(c):
-      continue                      # the instance's parameters depend on the constructor arguments
-    exp["i_" + cn] = ("type", cn, "A.%s()" % cn)
-    seen = set()
-    for k in mro_of(c, classes):
-      for a in k.constants:
-        an = a.name
-        if an in seen or not public(an):
-          continue
-        seen.add(an)
-        lines.append("a_%s_%s = i_%s.%s\n" % (cn, an, cn, an))
-        ct = canon(a.type)
-        if not has_typevar(ct):
-          exp["a_%s_%s" % (cn, an)] = ("type", ct, "A.%s().%s" % (cn, an))
-      for m in k.methods:
-        mn = m.name
-        if mn in seen or not public(mn) or len(m.signatures) != 1:
-          continue
-        seen.add(mn)
-        ret = canon(m.signatures[0].return_type)
-        if m.kind == pytd.MethodKind.PROPERTY:
-          lines.append("m_%s_%s = i_%s.%s\n" % (cn, mn, cn, mn))
-          if not has_typevar(ret):
-            exp["m_%s_%s" % (cn, mn)] = ("type", ret, "A.%s().%s" % (cn, mn))
-          continue
-        skip_first = m.kind != pytd.MethodKind.STATICMETHOD
-        margs = sig_args(m.signatures[0], classes, 2, skip_first)
-        if margs is None:
-          continue
-        recv = "i_%s" % cn if m.kind == pytd.MethodKind.METHOD else "A.%s" % cn
-        lines.append("m_%s_%s = %s.%s(%s)\n" % (cn, mn, recv, mn, ", ".join(margs)))
-        if not has_typevar(ret):
-          exp["m_%s_%s" % (cn, mn)] = ("type", ret, "%s.%s(...)" % (recv.replace("i_", "A.") + ("()" if recv.startswith("i_") else ""), mn))
-  return "".join(lines), exp
+      # the instance's parameters follow from the constructor arguments the oracle passes (type variables get int)
+      own = ["~" + t for t in class_tparams(c)]
+      ct = ("G", cn) + tuple(own)
+      for k, ksub in mro_subst(c, classes, {t: t for t in own}):
+        init = [m for m in k.methods if m.name == "__init__" and len(m.signatures) == 1]
+        if init and ksub is not None:
+          binds = {}
+          ok = True
+          for p in list(init[0].signatures[0].params)[1:]:
+            if not p.optional:
+              d = subst_tv(canon(p.type), ksub)
+              ok = ok and unify(d, all_tv_to(d, "int"), binds)
+          if ok and all(t in binds for t in own):
+            ct = ("G", cn) + tuple(binds[t] for t in own)
+            exp["i_" + cn] = ("type", ct, "A.%s(...)" % cn)
+          break
+        if init:
+          break
+      results.append(("a_" + cn, "i_" + cn, ct, "A.%s(...)" % cn, "i_" + cn))
+    else:
+      exp["i_" + cn] = ("type", cn, "A.%s()" % cn)
+      results.append(("a_" + cn, "i_" + cn, cn, "A.%s()" % cn, "i_" + cn))
+  # probes inside values: module-level constants first, then call results and constructed instances
+  for c in ast.constants:
+    n = c.name.split(".")[-1]
+    if public(n):
+      value_probes("q_" + n, "A." + n, canon(c.type), "A." + n, "v_" + n)
+  for prefix, expr, ct, where, parent in results:
+    value_probes(prefix, expr, ct, where, parent)
+  return "".join(lines), exp, meta
+
+
+def upstream_probe_source(meta):
+  """the same probe expressions, computed inside A itself (appended to A's source): `_p_<name> = <expr>`; A's own
+  analysis of them is what B's analysis has to reproduce."""
+  import re
+  names = sorted(meta, key=len, reverse=True)
+  pat = re.compile(r"\b(%s)\b" % "|".join(re.escape(n) for n in names)) if names else None
+  out = []
+  for name, m in meta.items():
+    e = re.sub(r"\bA\.", "", m["expr"])
+    if pat:
+      e = pat.sub(lambda mo: "_p_" + mo.group(1), e)
+    out.append("_p_%s = %s\n" % (name, e))
+  return "".join(out)
 
 
 def sig_canon(sig, skip_self):
@@ -664,18 +879,105 @@ def downstream_defs(pyi):
 FATAL = ("import-error", "pyi-error")
 
 
+KNOWN_KINDS = ("bare-type-read-as-Any", "omitted-typevar-default-call-is-Any", "final-attribute-read-keeps-Final",
+               "generic-base-attribute-overridden-in-subclass")
+
+
+def upstream_inferred(stub_text):
+  """{B name: ("type"|"alias", canonical type)} from the `_p_<name>` definitions of A's stub (A analysed with the
+  probe expressions appended)."""
+  from pytype.pytd import pytd
+  ast = parse_stub(stub_text, "A")
+  out = {}
+  for c in ast.constants:
+    n = c.name.split(".")[-1]
+    if n.startswith("_p_"):
+      out[n[3:]] = ("type", canon(c.type))
+  for a in ast.aliases:
+    n = a.name.split(".")[-1]
+    if n.startswith("_p_") and isinstance(a.type, pytd.Type):
+      out[n[3:]] = ("alias", canon(a.type))
+  return out
+
+
+def taint(errs, src, prefix, meta):
+  """names assigned on a line with an error (a call the oracle built badly: wrong-arg-types, missing-parameter, ...)
+  and everything read from them."""
+  lines = src.split("\n")
+  bad = set()
+  for e in errs:
+    if 0 < e[1] <= len(lines):
+      n = lines[e[1] - 1].split(" = ")[0]
+      if n.startswith(prefix):
+        bad.add(n[len(prefix):])
+  changed = True
+  while changed:
+    changed = False
+    for n, m in meta.items():
+      if n not in bad and m.get("parent") in bad:
+        bad.add(n)
+        changed = True
+  return bad
+
+
+def same_def(e, g):
+  """e = ("type"|"alias", canon) expected, g = downstream definition."""
+  return compare((e[0], e[1], ""), g) is None
+
+
+def classify(name, m, want, g):
+  """the narrow classes of mismatch that are listed known findings; everything else is `type-differs`."""
+  if g is None or g[0] not in ("type", "alias"):
+    return "type-differs"
+  if any(w is not None and type_to_any(w[1]) == type_to_any(g[1]) for w in want):
+    return "bare-type-read-as-Any"
+  if m.get("kind") == "call" and m.get("omitted_tv_default") and g[1] == "Any":
+    return "omitted-typevar-default-call-is-Any"
+  d = m.get("declared")
+  if m.get("kind") == "attr" and isinstance(d, tuple) and d[:2] == ("G", "Final") and \
+     isinstance(g[1], tuple) and g[1][:2] == ("G", "Final"):
+    return "final-attribute-read-keeps-Final"
+  owners = m.get("owners") or []
+  if m.get("kind") == "attr" and len(owners) > 1 and owners[0][1] is not None and owners[0][1] != g[1] and \
+     any(o[1] is not None and o[1] == g[1] for o in owners[1:]):
+    return "generic-base-attribute-overridden-in-subclass"
+  return "type-differs"
+
+
 def check_pair(src_a, workdir, transports=TRANSPORTS):
-  """Runs the full oracle for one upstream program.  Returns a dict with 'status' in
-  {'ok', 'skip', 'violation'} and details (first violation only)."""
+  """Runs the full oracle for one upstream program.  Returns a dict with 'status' in {'ok', 'skip', 'violation'},
+  'issues' (every mismatch, classified) and the concrete replay material (A with probes, B)."""
+  from pytype import config, io
   from pytype import utils as pytype_utils
   shutil.rmtree(workdir, ignore_errors=True)
+  os.makedirs(workdir, exist_ok=True)
   try:
-    stub_a, errs_a = analyse_upstream(src_a, workdir)
+    # 1. A alone, to learn its public surface
+    _, stub0 = io.generate_pyi(src_a, config.Options.create(python_version=(3, 12), module_name="A", pythonpath=""))
+    src_b, exp, meta = derive_downstream(stub0)
+    # 2. A with the probe expressions appended: A's own inference for every probe; this is the stub B imports
+    src_a2 = src_a + ("" if src_a.endswith("\n") else "\n") + upstream_probe_source(meta)
+    stub_a, errs_a = analyse_upstream(src_a2, workdir)
   except pytype_utils.UsageError as e:
     return {"status": "skip", "why": "usage-error " + str(e)[:100]}
-  src_b, exp = derive_downstream(stub_a)
-  res = {"status": "ok", "src_b": src_b, "stub_a": stub_a, "n_expect": len(exp), "upstream_errors": errs_a,
-         "kinds": {}}
+  inferred = upstream_inferred(stub_a)
+  # the stub B really imports is the one of A-with-probes: a probe call can add a signature to an unannotated
+  # function, so the declared expectations are re-read from it; a probe that is no longer derivable (e.g. the
+  # callee became overloaded) is not compared
+  try:
+    _, exp, meta2 = derive_downstream(stub_a)
+  except Exception:  # pylint: disable=broad-except
+    meta2 = meta
+  dropped = {n for n in meta if n not in meta2 or meta2[n]["expr"] != meta[n]["expr"]}
+  for n in meta:
+    if n in meta2:
+      for k in ("owners", "declared", "omitted_tv_default"):
+        if k in meta2[n]:
+          meta[n][k] = meta2[n][k]
+  tainted_a = taint([(e[0], e[1]) for e in errs_a], src_a2, "_p_", meta)
+  res = {"status": "ok", "src_a": src_a2, "src_b": src_b, "stub_a": stub_a, "n_expect": 0, "upstream_errors": errs_a,
+         "kinds": {}, "n_probes_inside": len([m for m in meta.values() if m.get("parent")]),
+         "inferred_differs_from_declared": 0, "tainted": 0, "issues": []}
   stubs = {}
   for tr in transports:
     try:
@@ -695,44 +997,65 @@ def check_pair(src_a, workdir, transports=TRANSPORTS):
     if fatal:
       res.update(status="violation", transport=tr, kind=fatal[0][0], what="downstream reports %r" % (fatal[0],))
       return res
+    tainted = taint(errs, src_b, "", meta) | tainted_a
     attr = [e for e in errs if e[0] in ("module-attr", "attribute-error", "name-error", "not-callable")]
+    # an attribute error that A's own analysis reports for the same probe is A's, not the hand-off's
+    attr = [e for e in attr if src_b.split("\n")[e[1] - 1].split(" = ")[0] not in tainted_a]
     if attr:
       res.update(status="violation", transport=tr, kind=attr[0][0], what="downstream reports %r" % (attr[0],))
       return res
     res.setdefault("downstream_errors", {})[tr] = errs
-    # a call the oracle built badly (wrong-arg-types, missing-parameter, ...) says nothing about the hand-off:
-    # the names assigned on such lines, and everything read from such an instance, are not compared
-    b_lines = src_b.split("\n")
-    tainted = set()
-    for e in errs:
-      if 0 < e[1] <= len(b_lines):
-        tainted.add(b_lines[e[1] - 1].split(" = ")[0])
-    for t in list(tainted):
-      if t.startswith("i_"):
-        c = t[2:]
-        tainted.update(n for n in exp if n.startswith("a_%s_" % c) or n.startswith("m_%s_" % c))
-    res["tainted"] = res.get("tainted", 0) + len([n for n in exp if n in tainted])
     try:
       got = downstream_defs(pyi)
     except Exception as e:  # pylint: disable=broad-except
       res.update(status="violation", transport=tr, kind="unparseable-stub", what=str(e)[:300])
       return res
-    for name, e in sorted(exp.items()):
-      if name in tainted:
+    n_cmp = 0
+    for name, m in meta.items():
+      if name in tainted or name in dropped:
+        res["tainted"] += 1
         continue
+      e_stub = exp.get(name)
+      e_inf = inferred.get(name)
       g = got.get(name)
-      bad = compare(e, g)
-      res["kinds"][e[0]] = res["kinds"].get(e[0], 0) + 1
-      if bad:
-        kind = "type-differs"
-        if e[0] in ("type", "alias") and g is not None and g[0] in ("type", "alias") and \
-           type_to_any(e[1]) == type_to_any(g[1]):
-          kind = "bare-type-read-as-Any"
-        res.setdefault("issues", []).append({
-            "transport": tr, "kind": kind, "name": name, "source": e[2],
-            "what": "%s: upstream %s, downstream %s" % (e[2], bad[0], bad[1])})
-  issues = res.get("issues", [])
-  other = [i for i in issues if i["kind"] != "bare-type-read-as-Any"]
+      if e_stub is not None and e_stub[0] == "function":
+        n_cmp += 1
+        res["kinds"]["function"] = res["kinds"].get("function", 0) + 1
+        bad = compare(e_stub, g)
+        if bad:
+          res["issues"].append({"transport": tr, "kind": "type-differs", "name": name, "source": m["what"],
+                                "what": "%s: upstream %s, downstream %s" % (m["what"], bad[0], bad[1])})
+        continue
+      if m.get("kind") == "ref" or (e_inf is None and e_stub is None):
+        if e_stub is not None:
+          n_cmp += 1
+          bad = compare(e_stub, g)
+          if bad:
+            res["issues"].append({"transport": tr, "kind": "type-differs", "name": name, "source": m["what"],
+                                  "what": "%s: upstream %s, downstream %s" % (m["what"], bad[0], bad[1])})
+        continue
+      n_cmp += 1
+      k = "inferred" if e_inf is not None else "declared"
+      res["kinds"][k] = res["kinds"].get(k, 0) + 1
+      ok_inf = e_inf is not None and same_def(e_inf, g)
+      ok_stub = e_stub is not None and same_def(e_stub, g)
+      if ok_inf:
+        continue
+      if ok_stub:
+        # B has exactly the declared type; A's context-sensitive analysis of the same expression found another
+        # one (e.g. a more precise result of an unannotated function): not the hand-off's doing
+        if e_inf is not None:
+          res["inferred_differs_from_declared"] += 1
+        continue
+      want = [e_inf, e_stub]
+      kind = classify(name, m, want, g)
+      wtxt = " / ".join(("inferred " if i == 0 else "declared ") + show(w[1]) for i, w in enumerate(want) if w is not None)
+      gtxt = "<name missing from B's stub>" if g is None else \
+          "%s %s" % (g[0], show(g[1]) if g[0] in ("type", "alias") else g[1:])
+      res["issues"].append({"transport": tr, "kind": kind, "name": name, "source": m["what"],
+                            "what": "%s: upstream %s, downstream %s" % (m["what"], wtxt, gtxt)})
+    res["n_expect"] = max(res["n_expect"], n_cmp)
+  other = [i for i in res["issues"] if i["kind"] not in KNOWN_KINDS]
   if other:
     res.update(status="violation", **{k: other[0][k] for k in ("transport", "kind", "name", "source", "what")})
     return res
